@@ -126,6 +126,9 @@ func (e *Env) invoke(st *State, recv Val, m *types.Func, args []Val, rt types.Ty
 	if ct := e.Cx.ifaceContract(recv.Typ, m.Name()); ct != nil {
 		return e.applyContract(st, ct, append([]Val{recv}, args...), rt, c)
 	}
+	if ct := e.Cx.extern[name]; ct != nil {
+		return e.applyContract(st, ct, append([]Val{recv}, args...), rt, c)
+	}
 	// intrinsic on interface method
 	if f, ok := intrinsicsByName[name]; ok {
 		return f(e, st, append([]Val{recv}, args...), rt, c)
@@ -200,6 +203,9 @@ func (e *Env) dispatch(st *State, fn *ssa.Function, args []Val, binds []Val, rt 
 		return e.inline(st, fn, args, binds, depth)
 	}
 	if ct := e.Cx.forFunc(fn); ct != nil && !(e.noContract[fn]) {
+		return e.applyContract(st, ct, args, rt, c)
+	}
+	if ct := e.Cx.extern[name]; ct != nil {
 		return e.applyContract(st, ct, args, rt, c)
 	}
 	if f, ok := intrinsicsByName[name]; ok {
